@@ -813,13 +813,13 @@ func H_C10_mutate_invariant() {
 	L := nondetRange(1, 2)
 	changed := vfC10Mutate(n, L)
 	verifReach("called")
-	if changed {
+	if n*L <= 2 && changed { // (the test forks the path: not repeated on the 2x2 shape)
 		verifReach("a residue was substituted")
 	}
 }
 
 // H_C10_mutate_support: every letter of the alphabet (the last one of the table included) can be the substitute, and a residue can survive rate<1.
-// bounds: 1x1 alignment, residue 'A', rate 1 (and 1/2 for survival); reachability over all outcomes of the draws
+// bounds: 1x1 alignment; nucleotide 'G' at rate 1, amino acid 'X' at rate 1/2; reachability over all outcomes of the draws
 // outside: other shapes
 func H_C10_mutate_support() {
 	if nondetRange(0, 1) == 0 {
